@@ -221,6 +221,10 @@ func (r *SourceRunner) HandleDeploy(ctx context.Context, msg *workerpb.DeploySou
 	go func() {
 		if err := r.processEvents(r.ctx); err != nil {
 			r.Logger.Error("processEvents stopped with error", "err", err)
+			// Without its event loop the runner reads nothing and forwards no
+			// barrier. Stop it, so that it deregisters and the job replaces it,
+			// instead of leaving it registered and heart-beating for good.
+			r.stop(fmt.Errorf("event loop failed: %w", err))
 		}
 		cancel()
 	}()
